@@ -418,3 +418,13 @@ Example agree_nonvacuous_workflow_nested :
   /\ vsconcatR (g_transform seq_mrg (compile_sprog wfn_prog) (map Val [VS "a"%string; VS "b"%string]))
      = g_invoke (compile_sprog wfn_prog) (VS "ab"%string).
 Proof. exact wfn_prog_in_domain. Qed.
+
+(* non-vacuity with a lambda that emits nested maps itself: kind 4 puts the map chunks it
+   receives under a key, chunk by chunk (Transform-native) *)
+Example agree_nonvacuous_wrap :
+  sprog_wf wrap_prog = true
+  /\ dom_ok (compile_sprog wrap_prog) (VS "ab"%string) = true
+  /\ g_invoke (compile_sprog wrap_prog) (VS "ab"%string) = Ok (VS "n3{af/;af.ac=n1<ab;af.ad=ab>;}"%string)
+  /\ vsconcatR (g_transform seq_mrg (compile_sprog wrap_prog) (map Val [VS "a"%string; VS "b"%string]))
+     = g_invoke (compile_sprog wrap_prog) (VS "ab"%string).
+Proof. exact wrap_prog_in_domain. Qed.
